@@ -55,6 +55,23 @@ CHECKS['C10'] = dict(
               'z3/cvc5; finite table obligation by evaluation',
     thorough=True)
 
+CHECKS['C09'] = dict(
+    category='proof',
+    text='Each public writer method (constructor, new_change, new_file, '
+         'write_preamble, write_meta, write_diff; private helpers inlined) is '
+         'verified for each of the nine reachable writer states: accepted => '
+         'target may follow (MAY_FOLLOW), order error => it may not, any '
+         'exception of any type leaves stack / previous-section / output '
+         'unchanged, acceptance appends exactly header + prepared content. '
+         'The object invariant makes this hold for call sequences of any '
+         'length. A bounded enumeration of call sequences with invalid-'
+         'argument variants is the labelled stand-in.',
+    design_ref='5/C09',
+    technique='contract-based deductive verification: object invariant + '
+              'exceptional post-conditions (atomicity) on the real ASTs, '
+              'z3/cvc5',
+    thorough=True)
+
 NOT_YET = 'check not built yet (work in progress; see DESIGN.md section 5)'
 NA = {}
 
